@@ -201,6 +201,11 @@ func runC09(cx *lib.Ctx) {
 		res.Fail(lib.Failure{Kind: "corr", Key: "rules-dump", Desc: "model rejected RULES: " + a})
 		return
 	}
+	for _, s := range []string{"a = 1\n# done  ", "a=1 # trailing note \t ", "a = 1\n// done\t", "# only a comment ", "a = 1  ", "a = 1\n  ", "a = 1 /* c */  "} {
+		nt := c09Oracle(cx, []byte(s), "corpus")
+		c09Corr(cx, []byte(s))
+		res.Case(s, nt)
+	}
 	for _, s := range handCorpusC09 {
 		nt := c09Oracle(cx, []byte(s), "corpus")
 		c09Corr(cx, []byte(s))
@@ -234,6 +239,16 @@ func runC09(cx *lib.Ctx) {
 		}
 		if r.Chance(1, 10) {
 			src = strings.TrimRight(src, "\r\n")
+		}
+		if r.Chance(1, 8) {
+			// how the file ends: no final newline; blanks, a comment (whose text may itself end in blanks) or both
+			// after the last token, so that what follows the last line ending is not "between two tokens"
+			src = strings.TrimRight(src, "\r\n")
+			if r.Chance(1, 2) {
+				src += "\n"
+			}
+			src += r.Pick([]string{"", " ", "\t", "  "}) + r.Pick([]string{"# done", "// done", "# done  ", "// done\t", "#", "# x \t ", "/* c */", "/* c */  ", "", "", " \t"})
+			res.Count("unterminated-last-line")
 		}
 		nt := c09Oracle(cx, []byte(src), "generated")
 		c09Corr(cx, []byte(src))
